@@ -520,14 +520,8 @@ func (e *Env) selectorLocs(root SymVal, fields []string) ([]leafLoc, bool) {
 		if !ok {
 			if gf := e.c.g.ghostFields[fullTypeKey(stt)]; gf != nil && i == len(fields)-1 {
 				if srt, ok := gf[f]; ok {
-					k := KInt
-					if srt == "bool" {
-						k = KBool
-					}
-					if srt == "real" {
-						k = KReal
-					}
-					return []leafLoc{{"$ghost:" + fullTypeKey(stt) + "." + f, cur.S, k, nil}}, true
+					k, _, gt := e.ghostKind(srt, stt)
+					return []leafLoc{{"$ghost:" + fullTypeKey(stt) + "." + f, cur.S, k, gt}}, true
 				}
 			}
 			return nil, false
@@ -541,14 +535,8 @@ func (e *Env) selectorLocs(root SymVal, fields []string) ([]leafLoc, bool) {
 		if idx < 0 {
 			if gf := e.c.g.ghostFields[fullTypeKey(stt)]; gf != nil && i == len(fields)-1 {
 				if srt, ok := gf[f]; ok {
-					k := KInt
-					if srt == "bool" {
-						k = KBool
-					}
-					if srt == "real" {
-						k = KReal
-					}
-					return []leafLoc{{"$ghost:" + fullTypeKey(stt) + "." + f, cur.S, k, nil}}, true
+					k, _, gt := e.ghostKind(srt, stt)
+					return []leafLoc{{"$ghost:" + fullTypeKey(stt) + "." + f, cur.S, k, gt}}, true
 				}
 			}
 			return nil, false
@@ -600,16 +588,10 @@ func (e *Env) selectField(x SymVal, name string) (SymVal, error) {
 		stt := pt.Elem()
 		if gf := c.g.ghostFields[fullTypeKey(stt)]; gf != nil {
 			if srt, ok := gf[name]; ok {
-				k, ss := KInt, "Int"
-				if srt == "bool" {
-					k, ss = KBool, "Bool"
-				}
-				if srt == "real" {
-					k, ss = KReal, "Real"
-				}
+				k, ss, gt := e.ghostKind(srt, stt)
 				comp := "$ghost:" + fullTypeKey(stt) + "." + name
-				c.g.compKT[comp] = compKT{k, nil}
-				return SymVal{K: k, S: app("select", c.comp(e.st, comp, ss), x.S)}, nil
+				c.g.compKT[comp] = compKT{k, gt}
+				return SymVal{K: k, T: gt, S: app("select", c.comp(e.st, comp, ss), x.S)}, nil
 			}
 		}
 		stru, ok := stt.Underlying().(*types.Struct)
@@ -979,8 +961,41 @@ func (e *Env) call(ex *ast.CallExpr) (SymVal, error) {
 		q := "exists"
 		if name == "forallint" {
 			q = "forall"
+			if pats := selectPatterns(body.S, bn); len(pats) > 0 {
+				var ps string
+				for _, p := range pats {
+					ps += " :pattern (" + p + ")"
+				}
+				return mkBool(fmt.Sprintf("(forall ((%s %s)) (! %s%s))", bn, srt, body.S, ps)), nil
+			}
 		}
 		return mkBool(fmt.Sprintf("(%s ((%s %s)) %s)", q, bn, srt, body.S)), nil
+	case "forallref":
+		// forallref(x, *T, body): body holds for every reference x (typed *T inside body)
+		id, ok := ex.Args[0].(*ast.Ident)
+		if !ok || len(ex.Args) != 3 {
+			return SymVal{}, fmt.Errorf("forallref(x, *T, body)")
+		}
+		t, err := e.typeExpr(ex.Args[1])
+		if err != nil {
+			return SymVal{}, err
+		}
+		ce := e.child()
+		bn := fmt.Sprintf("%s!q%d", id.Name, c.nfresh)
+		c.nfresh++
+		ce.vars[id.Name] = SymVal{K: KRef, S: bn, T: t}
+		body, err := ce.eval(ex.Args[2])
+		if err != nil {
+			return SymVal{}, err
+		}
+		if pats := selectPatterns(body.S, bn); len(pats) > 0 {
+			var ps string
+			for _, p := range pats {
+				ps += " :pattern (" + p + ")"
+			}
+			return mkBool(fmt.Sprintf("(forall ((%s Ref)) (! %s%s))", bn, body.S, ps)), nil
+		}
+		return mkBool(fmt.Sprintf("(forall ((%s Ref)) %s)", bn, body.S)), nil
 	case "isnil":
 		x, err := arg(0)
 		if err != nil {
@@ -1216,6 +1231,37 @@ func (e *Env) call(ex *ast.CallExpr) (SymVal, error) {
 		}
 		ho := c.comp(e.old, comp, gsort)
 		return mkBool(sEq(hn, app("store", ho, cell, vv.S))), nil
+	case "gonly":
+		// gonly(Type.field, p): since the old state the ghost array changed at most in the cells of object p
+		sel, ok := ex.Args[0].(*ast.SelectorExpr)
+		if !ok || len(ex.Args) != 2 {
+			return SymVal{}, fmt.Errorf("gonly(Type.field, p)")
+		}
+		comp := "$ghost:" + exprString(sel) + "[]"
+		kt, known := c.g.compKT[comp]
+		if !known {
+			kt = compKT{KBool, nil}
+			c.g.compKT[comp] = kt
+		}
+		gsort := c.sortOf(kt.k, kt.t)
+		ref, _, ok := e.evalAddr(ex.Args[1])
+		if !ok {
+			pv, err := arg(1)
+			if err != nil {
+				return SymVal{}, err
+			}
+			if pv.K != KRef {
+				return SymVal{}, fmt.Errorf("gonly: second argument must denote an object")
+			}
+			ref = pv.S
+		}
+		hn, ho := c.comp(e.st, comp, gsort), c.comp(e.old, comp, gsort)
+		if hn == ho {
+			return mkBool("true"), nil
+		}
+		r, i := c.fresh("qr"), c.fresh("qi")
+		return mkBool(fmt.Sprintf("(forall ((%s Ref) (%s Int)) (! (=> (not (= %s %s)) (= (select %s (elm %s %s)) (select %s (elm %s %s)))) :pattern ((select %s (elm %s %s)))))",
+			r, i, r, ref, hn, r, i, ho, r, i, hn, r, i)), nil
 	case "gsame":
 		// gsame(Type.field): the ghost array is unchanged since the old state
 		sel, ok := ex.Args[0].(*ast.SelectorExpr)
@@ -1453,6 +1499,25 @@ func (e *Env) call(ex *ast.CallExpr) (SymVal, error) {
 			return SymVal{}, fmt.Errorf("storeof needs a slice")
 		}
 		return SymVal{K: KRef, S: x.Fs[0].S}, nil
+	case "memid":
+		// memid(T): an Int token for the current contents of the memory component holding
+		// escaped cells / slice elements of type T. Equal contents give equal tokens; nothing
+		// else is known about the token.
+		t, err := e.typeExpr(ex.Args[0])
+		if err != nil {
+			return SymVal{}, err
+		}
+		locs := c.leafLocs("nil", t)
+		if len(locs) != 1 {
+			return SymVal{}, fmt.Errorf("memid needs a single-leaf type")
+		}
+		srt := c.sortOf(locs[0].k, locs[0].t)
+		fn := smtName("memid!" + srt)
+		if !c.implDone[fn] {
+			c.implDone[fn] = true
+			fmt.Fprintf(&c.sb, "(declare-fun %s ((Array Ref %s)) Int)\n", fn, srt)
+		}
+		return mkMath(app(fn, c.comp(e.st, locs[0].comp, srt))), nil
 	case "rootof":
 		x, err := arg(0)
 		if err != nil {
@@ -1523,6 +1588,30 @@ func (e *Env) typeExpr(ex ast.Expr) (types.Type, error) {
 		}
 	}
 	return nil, fmt.Errorf("unknown type in spec: %v", ex)
+}
+
+// ghostKind maps the declared sort of a ghost field (int, bool, real, iface, ref, or *T for a
+// typed reference to a struct of the owner's package) to its kind, SMT sort and Go type.
+func (e *Env) ghostKind(srt string, owner types.Type) (Kind, string, types.Type) {
+	switch srt {
+	case "bool":
+		return KBool, "Bool", nil
+	case "real":
+		return KReal, "Real", nil
+	case "iface":
+		return KIface, "Iface", nil
+	case "ref":
+		return KRef, "Ref", nil
+	}
+	if strings.HasPrefix(srt, "*") {
+		if n, ok := owner.(*types.Named); ok && n.Obj().Pkg() != nil {
+			if o := n.Obj().Pkg().Scope().Lookup(srt[1:]); o != nil {
+				return KRef, "Ref", types.NewPointer(o.Type())
+			}
+		}
+		return KRef, "Ref", nil
+	}
+	return KInt, "Int", nil
 }
 
 func (e *Env) typeExprText(s string) (types.Type, error) {
@@ -1604,6 +1693,37 @@ func (e *Env) callSpecFn(sf *SpecFn, ex *ast.CallExpr) (SymVal, error) {
 			}
 		}
 		args = append(args, v)
+	}
+	if sf.Body != "" && sf.Rec {
+		name := smtName("spec!" + sf.Name)
+		rs, rk := e.specSort(sf.Result)
+		if rs == "" {
+			return SymVal{}, fmt.Errorf("specfn rec %s: unsupported result sort %q", sf.Name, sf.Result)
+		}
+		if !c.specFnDeclared[name] {
+			c.specFnDeclared[name] = true
+			ce := &Env{c: c, st: e.st, old: e.old, vars: map[string]SymVal{}, calleePkg: sf.Pkg, bound: map[string]bool{}}
+			var ps []string
+			for _, p := range sf.Params {
+				srt, k := e.specSort(p.Type)
+				if srt == "" {
+					return SymVal{}, fmt.Errorf("specfn rec %s: parameter %s must have a scalar spec sort", sf.Name, p.Name)
+				}
+				sym := smtName("rp!" + sf.Name + "!" + p.Name)
+				ce.vars[p.Name] = SymVal{K: k, S: sym}
+				ps = append(ps, fmt.Sprintf("(%s %s)", sym, srt))
+			}
+			body, err := ce.evalText(sf.Body)
+			if err != nil {
+				return SymVal{}, fmt.Errorf("specfn rec %s: %v", sf.Name, err)
+			}
+			fmt.Fprintf(&c.sb, "(define-fun-rec %s (%s) %s %s)\n", name, strings.Join(ps, " "), rs, body.S)
+		}
+		var argTerms []string
+		for _, a := range args {
+			argTerms = append(argTerms, a.S)
+		}
+		return SymVal{K: rk, S: app(name, argTerms...)}, nil
 	}
 	if sf.Body != "" {
 		ce := &Env{c: c, st: e.st, old: e.old, vars: map[string]SymVal{}, calleePkg: sf.Pkg, bound: map[string]bool{}}
